@@ -107,12 +107,19 @@ fn seeds(ep: &str) -> Vec<Vec<u8>> {
         "id_key" => s(&["ed25519:abc_123", "ed25519:1"]),
         "id_device_key" => s(&["curve25519:DEVICE", "signed_curve25519:AAAAHQ", "ed25519:abcdefghijklmnopqrstuvwxyzABCDEFGHIJKLMNOPQ"]),
         "id_misc" => s(&["11", "abc_DEF-1.2=3", "org.example.v1"]),
+        "id_event_type" => s(&["m.secret_storage.key.abc", "m.room.message", "org.matrix.call.sdp_stream_metadata_changed", "m.key.verification.start", "m.secret_storage.default_key", "m.policy.rule.user", "org.example.custom"]),
         "uri_matrix_to" => s(&["https://matrix.to/#/%23room:example.org/$event:example.org?via=a.b&via=c.d", "https://matrix.to/#/@user:example.org"]),
         "uri_matrix" => s(&["matrix:r/room:example.org/e/event?via=a.b&action=join", "matrix:u/user:example.org?action=chat", "matrix:roomid/abc:x.y"]),
         "json_timeline" | "json_sync_timeline" | "json_raw" => event_seeds()[..5].iter().map(|v| j(v.clone())).collect(),
         "json_stripped" => event_seeds()[1..4].iter().map(|v| j(v.clone())).collect(),
         "json_to_device" => vec![j(event_seeds()[7].clone())],
-        "json_account_data" => vec![j(event_seeds()[6].clone())],
+        "json_account_data" => vec![
+            j(event_seeds()[6].clone()),
+            j(json!({"type": "m.secret_storage.key.abc", "content": {"algorithm": "m.secret_storage.v1.aes-hmac-sha2", "name": "n", "iv": "YWJjZGVmZ2hpamtsbW5vcA", "mac": "aWRvbnRrbm93d2hhdGFtYWNsb29rc2xpa2U"}})),
+            j(json!({"type": "m.direct", "content": {"@a:x.y": ["!r:x.y"]}})),
+            j(json!({"type": "m.ignored_user_list", "content": {"ignored_users": {"@a:x.y": {}}}})),
+            j(json!({"type": "m.secret_storage.default_key", "content": {"key": "abc"}})),
+        ],
         "json_ephemeral" => vec![j(event_seeds()[5].clone())],
         "json_message_content" => vec![j(event_seeds()[0]["content"].clone()), j(json!({"msgtype": "m.image", "body": "i", "url": "mxc://a/b", "info": {"h": 1, "w": 2, "thumbnail_info": {"h": 1}}})), j(json!({"msgtype": "x.custom", "body": "b", "m.relates_to": {"rel_type": "m.replace", "event_id": "$e"}, "m.new_content": {"msgtype": "m.text", "body": "n"}}))],
         "json_ruleset" => vec![j(event_seeds()[6]["content"]["global"].clone())],
@@ -120,6 +127,10 @@ fn seeds(ep: &str) -> Vec<Vec<u8>> {
         "json_canonical" => vec![j(json!({"a": [1, {"b": null}], "c": "é", "d": 9007199254740991i64})), b"[1,2,{\"x\":-9007199254740991}]".to_vec()],
         "http_send_message" => vec![http_seed("PUT", "https://hs/_matrix/client/v3/rooms/!r:x.y/send/m.room.message/txn1", vec![("authorization", "Bearer t"), ("content-type", "application/json")], json!({"msgtype": "m.text", "body": "x"}), vec!["!r:x.y", "m.room.message", "txn1"])],
         "http_get_state" => vec![http_seed("GET", "https://hs/_matrix/client/v3/rooms/!r:x.y/state/m.room.member/@a:x.y?format=event", vec![("authorization", "Bearer t")], json!(null), vec!["!r:x.y", "m.room.member", "@a:x.y"])],
+        "http_get_account_data" => vec![
+            http_seed("GET", "https://hs/_matrix/client/v3/user/@a:x.y/account_data/m.secret_storage.key.abc", vec![("authorization", "Bearer t")], json!(null), vec!["@a:x.y", "m.secret_storage.key.abc"]),
+            http_seed("GET", "https://hs/_matrix/client/v3/user/@a:x.y/account_data/m.push_rules", vec![("authorization", "Bearer t")], json!(null), vec!["@a:x.y", "m.push_rules"]),
+        ],
         "http_join" => vec![http_seed("POST", "https://hs/_matrix/client/v3/join/%23a:x.y?via=a.b&via=c.d&server_name=e.f", vec![("authorization", "Bearer t")], json!({"reason": "r", "third_party_signed": {"sender": "@a:x.y", "mxid": "@b:x.y", "token": "t", "signatures": {"x.y": {"ed25519:1": "c2ln"}}}}), vec!["#a:x.y"])],
         "http_fed_send_join" => vec![http_seed("PUT", "https://hs/_matrix/federation/v2/send_join/!r:x.y/$e:x.y?omit_members=true", vec![("authorization", "X-Matrix origin=a.b,key=\"ed25519:1\",sig=\"c2ln\"")], event_seeds()[1].clone(), vec!["!r:x.y", "$e:x.y"])],
         "http_fed_transaction" => vec![http_seed("PUT", "https://hs/_matrix/federation/v1/send/txn", vec![], json!({"origin": "a.b", "origin_server_ts": 1, "pdus": [event_seeds()[0].clone()], "edus": [{"edu_type": "m.typing", "content": {"room_id": "!r:x.y", "user_id": "@a:x.y", "typing": true}}, {"edu_type": "m.receipt", "content": {"!r:x.y": {"m.read": {"@a:x.y": {"data": {"ts": 1}, "event_ids": ["$e:x.y"]}}}}}, {"edu_type": "m.presence", "content": {"push": [{"user_id": "@a:x.y", "presence": "online", "last_active_ago": 1}]}}]}), vec!["txn"])],
